@@ -253,6 +253,19 @@ class SysEngine(MempoolEngine):
                 self.big_h = w.height()
                 self.bump('step:big_block_at_tip')
             self.world_changed()
+        elif kind == 'reorg_small':
+            # the last d blocks are replaced by blocks holding only a coinbase (never more txs than the orphaned ones), one longer;
+            # later aimed queries go to the first replaced height
+            d = op[1]
+            if w.height() >= 2 * d + 2:
+                tip = w.fork(d, d + 1, rng=rng, remine=0.0, ntx=0)
+                if self.uw.admissible(tip):
+                    self.big_h = w.height() - d + 1
+                    w.switch_to(tip)
+                    self.bump('step:reorg_to_smaller_blocks')
+                    self.world_changed()
+                else:
+                    self.bump('reorg_skipped_inadmissible')
         elif kind == 'reorg_big':
             # the recent big block is replaced by another block of >= 200 txs at the same height (one block longer)
             d = op[1] if self.big_h is None else max(op[1], w.height() - self.big_h + 1)
@@ -369,6 +382,9 @@ class SysEngine(MempoolEngine):
                     self.bump('header_proofs_refused_by_short_read_guard')
                 elif err.get('code') == -102:
                     self.bump('proof_requests_timed_out_during_reorg_window')
+                elif 'not on disk' in str(err.get('message')):
+                    # a block the daemon has (and the block processor may already hold in memory) that is not flushed yet
+                    self.bump('proof_requests_refused_block_not_flushed_yet')
             return
         h = info['h']
         cands = [tight_chain[h]] if tight_chain is not None and h < len(tight_chain) else self.branch_blocks_at(h)
